@@ -80,14 +80,21 @@ class Resolver:
                     t = st.targets[0]
                     if not (isinstance(t.value, ast.Name) and t.value.id == "self"):
                         continue
-                    v = st.value
                     entry = out.setdefault((cq, t.attr), {"param": False, "wrappers": set()})
-                    if isinstance(v, ast.Name) and v.id in params:
-                        entry["param"] = True
-                    elif isinstance(v, ast.Call) and isinstance(v.func, ast.Name):
-                        tgt = self.modnames[mod].get(v.func.id)
-                        if tgt and tgt[0] == "class" and any(isinstance(a, ast.Name) and a.id in params for a in v.args):
-                            entry["wrappers"].add(tgt[1])
+                    alts, todo = [], [st.value]
+                    while todo:  # a conditional expression contributes both arms
+                        x = todo.pop()
+                        if isinstance(x, ast.IfExp):
+                            todo.extend([x.body, x.orelse])
+                        else:
+                            alts.append(x)
+                    for v in alts:
+                        if isinstance(v, ast.Name) and v.id in params:
+                            entry["param"] = True
+                        elif isinstance(v, ast.Call) and isinstance(v.func, ast.Name):
+                            tgt = self.modnames[mod].get(v.func.id)
+                            if tgt and tgt[0] == "class" and any(isinstance(a, ast.Name) and a.id in params for a in v.args):
+                                entry["wrappers"].add(tgt[1])
         return {k: v for k, v in out.items() if v["param"] or v["wrappers"]}
 
     def class_of(self, f: FuncInfo):
